@@ -83,7 +83,8 @@ Section Backward.
     | Some cur =>
       if negb (enabled (o_rets cur)) then Some (g, e)        (* continue *)
       else
-        let g1 := set_ops g (set_nth (g_ops g) k (set_rets cur (map mat_zero (o_rets cur)))) in
+        let g1 := {| g_ops := set_nth (g_ops g) k (set_rets cur (map mat_zero (o_rets cur)));
+                     g_log := g_log g; g_blog := g_blog g ++ [k] |} in
         match gather_args g1 e (o_args cur) with
         | None => None
         | Some (xs, g2) =>
